@@ -1,0 +1,106 @@
+//go:build verif
+
+// Contracts for govc (contract-based deductive verification, /verif). Comment-only file:
+// it is compiled only under the build tag "verif" and contains no code.
+
+package backend
+
+//@ func (*BfeBackend).Avail
+//@   props C06
+//@   nopanic
+//@   requires back != nil
+//@   modifies nothing
+//@   ensures result0 == back.avail
+
+//@ func (*BfeBackend).ConnNum
+//@   props C06
+//@   nopanic
+//@   requires back != nil
+//@   modifies nothing
+//@   ensures result0 == back.connNum
+
+//@ func (*BfeBackend).setAvail
+//@   props C06
+//@   nopanic
+//@   requires back != nil
+//@   modifies back.avail, back.failNum
+//@   ensures back.avail == avail
+//@   ensures[return_to_rotation_clears_failures] avail ==> back.failNum == 0
+//@   ensures !avail ==> back.failNum == old(back.failNum)
+
+//@ func (*BfeBackend).SetAvail
+//@   props C06
+//@   nopanic
+//@   requires back != nil
+//@   modifies back.avail, back.failNum
+//@   ensures back.avail == avail
+//@   ensures avail ==> back.failNum == 0
+//@   ensures !avail ==> back.failNum == old(back.failNum)
+
+//@ func (*BfeBackend).IncConnNum
+//@   props C06,C07
+//@   nopanic
+//@   requires back != nil && back.connNum < 1000000000000
+//@   modifies back.connNum
+//@   ensures back.connNum == old(back.connNum) + 1
+
+//@ func (*BfeBackend).DecConnNum
+//@   props C06,C07
+//@   nopanic
+//@   requires back != nil && back.connNum > -1000000000000
+//@   modifies back.connNum
+//@   ensures back.connNum == old(back.connNum) - 1
+
+//@ func (*BfeBackend).AddFailNum
+//@   props C06
+//@   nopanic
+//@   requires back != nil && back.failNum < 1000000000000
+//@   modifies back.failNum
+//@   ensures back.failNum == old(back.failNum) + 1
+
+//@ func (*BfeBackend).ResetFailNum
+//@   props C06
+//@   nopanic
+//@   requires back != nil
+//@   modifies back.failNum
+//@   ensures back.failNum == 0
+
+//@ func (*BfeBackend).AddSuccNum
+//@   props C06
+//@   nopanic
+//@   requires back != nil && back.succNum < 1000000000000
+//@   modifies back.succNum
+//@   ensures back.succNum == old(back.succNum) + 1
+
+//@ func (*BfeBackend).ResetSuccNum
+//@   props C06
+//@   nopanic
+//@   requires back != nil
+//@   modifies back.succNum
+//@   ensures back.succNum == 0
+
+//@ func (*BfeBackend).CheckAvail
+//@   props C06
+//@   nopanic
+//@   requires back != nil
+//@   modifies back.succNum
+//@   ensures[back_in_rotation_only_after_threshold_successes] result0 <==> old(back.succNum) >= succThreshold
+//@   ensures result0 ==> back.succNum == 0
+//@   ensures !result0 ==> back.succNum == old(back.succNum)
+
+//@ func (*BfeBackend).UpdateStatus
+//@   props C06
+//@   nopanic
+//@   requires back != nil
+//@   modifies back.avail, back.failNum
+//@   ensures[out_of_rotation_exactly_at_threshold] old(back.failNum) >= failThreshold ==> !back.avail
+//@   ensures[below_threshold_unchanged] old(back.failNum) < failThreshold ==> back.avail == old(back.avail)
+//@   ensures[checker_started_only_on_transition] result0 <==> (old(back.avail) && old(back.failNum) >= failThreshold)
+//@   ensures back.failNum == old(back.failNum)
+
+//@ func (*BfeBackend).OnSuccess
+//@   props C06
+//@   nopanic
+//@   requires back != nil
+//@   modifies back.failNum
+//@   ensures[success_resets_consecutive_failures] back.failNum == 0
